@@ -186,7 +186,7 @@ type tkRun struct {
 	// what the harness knows about the token it minted last
 	lastClaims map[string]interface{}
 	lastRaw    string
-	prevRS     string // the most recent genuinely RS256-signed token minted in this run
+	prevRS     string          // the most recent genuinely RS256-signed token minted in this run
 	lastKey    *rsa.PrivateKey // nil when not RS256-signed / tampered
 	cur        tkCase
 	seq        int
